@@ -94,6 +94,7 @@ type PkgContracts struct {
 	lemmas []*Lemma
 	ghosts []*GhostVar
 	imports map[string]string // alias -> path (declared with //@ import)
+	macros  map[string]*Macro
 }
 
 var implRe = regexp.MustCompile(`==>`)
@@ -224,7 +225,7 @@ func parseSpecExpr(text string) (ast.Expr, error) {
 	return e, nil
 }
 
-var kwRe = regexp.MustCompile(`^(func|iface|spec|lemma|ghost|import|requires|ensures|modifies|inline|trusted|noverify|pure|fresh|loop|let|props|opaque|inlines|panics_when|depth|maxpaths)\b`)
+var kwRe = regexp.MustCompile(`^(macro|func|iface|spec|lemma|ghost|import|requires|ensures|modifies|inline|trusted|noverify|pure|fresh|loop|let|props|opaque|inlines|panics_when|depth|maxpaths)\b`)
 
 // ParseContractFile extracts contracts from the //@ lines of a file.
 func ParseContractFile(pkgPath, file string, src []byte, pc *PkgContracts) error {
@@ -252,6 +253,9 @@ func ParseContractFile(pkgPath, file string, src []byte, pc *PkgContracts) error
 	var cur *FuncContract
 	for _, it := range items {
 		kw := kwRe.FindString(it.text)
+		if kw != "macro" {
+			it.text = expandMacros(it.text, pc.macros)
+		}
 		rest := strings.TrimSpace(it.text[len(kw):])
 		mk := func(kind, text string) (*Clause, error) {
 			e, err := parseSpecExpr(text)
@@ -261,6 +265,19 @@ func ParseContractFile(pkgPath, file string, src []byte, pc *PkgContracts) error
 			return &Clause{kind: kind, text: text, expr: e, line: it.line, file: file}, nil
 		}
 		switch kw {
+		case "macro":
+			// macro name(a, b) = text
+			m := macroRe.FindStringSubmatch(rest)
+			if m == nil {
+				return fmt.Errorf("%s:%d: bad macro", file, it.line)
+			}
+			var ps []string
+			for _, p := range strings.Split(m[2], ",") {
+				if p = strings.TrimSpace(p); p != "" {
+					ps = append(ps, p)
+				}
+			}
+			pc.macros[m[1]] = &Macro{params: ps, body: expandMacros(strings.TrimSpace(m[3]), pc.macros)}
 		case "import":
 			f := strings.Fields(rest)
 			if len(f) == 2 {
@@ -484,4 +501,62 @@ func indexTopEq(s string) int {
 		}
 	}
 	return -1
+}
+
+// Macro is a textual abbreviation usable in clause texts: name(args) is replaced by the body
+// with parameters substituted (whole identifiers only).
+type Macro struct {
+	params []string
+	body   string
+}
+
+var macroRe = regexp.MustCompile(`^(\w+)\(([^)]*)\)\s*=\s*(.*)$`)
+
+func expandMacros(text string, macros map[string]*Macro) string {
+	for iter := 0; iter < 20; iter++ {
+		changed := false
+		for name, m := range macros {
+			re := regexp.MustCompile(`\b` + name + `\(`)
+			loc := re.FindStringIndex(text)
+			if loc == nil {
+				continue
+			}
+			// find matching paren
+			d := 0
+			j := loc[1] - 1
+			for ; j < len(text); j++ {
+				if text[j] == '(' {
+					d++
+				} else if text[j] == ')' {
+					d--
+					if d == 0 {
+						break
+					}
+				}
+			}
+			if j >= len(text) {
+				continue
+			}
+			args := splitTop(text[loc[1]:j], ',')
+			if len(m.params) == 0 {
+				args = nil
+			}
+			if len(args) != len(m.params) {
+				continue
+			}
+			body := m.body
+			for k, p := range m.params {
+				body = regexp.MustCompile(`\b`+p+`\b`).ReplaceAllLiteralString(body, "\x00"+strconv.Itoa(k)+"\x01")
+			}
+			for k := range m.params {
+				body = strings.ReplaceAll(body, "\x00"+strconv.Itoa(k)+"\x01", "("+strings.TrimSpace(args[k])+")")
+			}
+			text = text[:loc[0]] + "(" + body + ")" + text[j+1:]
+			changed = true
+		}
+		if !changed {
+			break
+		}
+	}
+	return text
 }
